@@ -426,7 +426,7 @@ func (el *HTMLElement) GetInnerHTMLBySelectorAll(ctx context.Context, selector d
 				return false
 			}
 
-			arr.Push(values.NewString(strings.TrimSpace(str)))
+			arr.Push(values.NewString(str))
 
 			return true
 		})
